@@ -36,7 +36,7 @@ from collections import namedtuple, defaultdict
 from http.server import HTTPServer, BaseHTTPRequestHandler
 from json import JSONDecodeError
 from queue import Empty, PriorityQueue
-from threading import Thread
+from threading import Thread, RLock
 from time import perf_counter, sleep
 from typing import Tuple, Dict, Optional
 
@@ -537,6 +537,9 @@ class Messaging(object):
 
         # Keep track of failer messages to retry later
         self._failed = []
+        # messages can be posted, and computations registered, from several
+        # threads
+        self._failed_lock = RLock()
 
         # Containers for metrics on sent messages:
         self.count_ext_msg = defaultdict(lambda: 0)  # type: Dict[str, int]
@@ -644,9 +647,20 @@ class Messaging(object):
             self.discovery.subscribe_computation(
                 dest_computation, self._on_computation_registration, one_shot=True
             )
-            self._failed.append(
-                (src_computation, dest_computation, msg, msg_type, on_error)
-            )
+            with self._failed_lock:
+                self._failed.append(
+                    (src_computation, dest_computation, msg, msg_type, on_error)
+                )
+                # The computation may have been registered (from another
+                # thread) since the lookup above: the registration callback
+                # has then already fired and would never retry this message.
+                try:
+                    dest_agent = self.discovery.computation_agent(dest_computation)
+                except UnknownComputation:
+                    return
+                self._on_computation_registration(
+                    "computation_added", dest_computation, dest_agent
+                )
             return
 
         full_msg = ComputationMessage(src_computation, dest_computation, msg, msg_type)
@@ -715,15 +729,16 @@ class Messaging(object):
         """
 
         if evt == "computation_added":
-            for failed in self._failed[:]:
-                src, dest, msg, msg_type, on_error = failed
-                if dest != computation:
-                    continue
-                self.logger.info(
-                    "Retrying failed message to %s on %s : %s", dest, agent, msg
-                )
-                self.post_msg(src, dest, msg, msg_type, on_error)
-                self._failed.remove(failed)
+            with self._failed_lock:
+                for failed in self._failed[:]:
+                    src, dest, msg, msg_type, on_error = failed
+                    if dest != computation:
+                        continue
+                    self.logger.info(
+                        "Retrying failed message to %s on %s : %s", dest, agent, msg
+                    )
+                    self.post_msg(src, dest, msg, msg_type, on_error)
+                    self._failed.remove(failed)
 
     def __str__(self):
         return "Messaging({})".format(self._local_agent)
